@@ -23,6 +23,7 @@ from __future__ import annotations
 import abc
 import logging
 import os
+import string
 import sys
 import typing
 import warnings
@@ -368,6 +369,9 @@ def _parse_color_true(desc: str) -> int | None:
     if not desc.startswith("#"):
         return None
 
+    if not all(ch in string.hexdigits for ch in desc[1:]):
+        return None
+
     if len(desc) == 7:
         h = desc[1:]
         return int(h, 16)
@@ -449,7 +453,7 @@ def _parse_color_256(desc: str) -> int | None:
 
 
 def _true_to_256(desc: str) -> str | None:
-    if not (desc.startswith("#") and len(desc) == 7):
+    if not (desc.startswith("#") and len(desc) == 7 and all(ch in string.hexdigits for ch in desc[1:])):
         return None
 
     c256 = _parse_color_256("#" + "".join(format(int(x, 16) // 16, "x") for x in (desc[1:3], desc[3:5], desc[5:7])))
